@@ -70,10 +70,7 @@ func (w *World) valueModel() *valueModel {
 			walkNoLit(f.Body, func(c ast.Node) bool {
 				if r, ok := c.(*ast.ReturnStmt); ok {
 					n++
-					u, ok := unparen(r.Results[0]).(*ast.UnaryExpr)
-					if !ok || u.Op != token.AND {
-						all = false
-					} else if _, ok := unparen(u.X).(*ast.CompositeLit); !ok {
+					if len(r.Results) != 1 || !m.freshNonNil(f, r.Results[0], 0) {
 						all = false
 					}
 				}
@@ -88,12 +85,41 @@ func (w *World) valueModel() *valueModel {
 	return m
 }
 
+// freshNonNil: &T{…}, new(T), or a local assigned exactly once to one of those.
+func (m *valueModel) freshNonNil(f *Func, x ast.Expr, depth int) bool {
+	info := f.Pkg.TypesInfo
+	switch x := unparen(x).(type) {
+	case *ast.UnaryExpr:
+		if x.Op == token.AND {
+			_, ok := unparen(x.X).(*ast.CompositeLit)
+			return ok
+		}
+	case *ast.CallExpr:
+		return isBuiltin(info, x, "new")
+	case *ast.Ident:
+		obj, _ := info.Uses[x].(*types.Var)
+		if obj == nil || depth > 2 {
+			return false
+		}
+		e := m.w.ent(f)
+		if as := e.assigns[obj]; len(as) == 1 && !e.addrOf[obj] {
+			if a, ok := as[0].(*ast.AssignStmt); ok && len(a.Lhs) == 1 && len(a.Rhs) == 1 {
+				return m.freshNonNil(f, a.Rhs[0], depth+1)
+			}
+		}
+	}
+	return false
+}
+
 // intrinsic says why a *Value expression needs no proof ("" if it does).
 func (m *valueModel) intrinsic(f *Func, x ast.Expr, depth int) string {
 	info := f.Pkg.TypesInfo
 	x = unparen(x)
 	switch x := x.(type) {
 	case *ast.CallExpr:
+		if isBuiltin(info, x, "new") {
+			return "new(T) is never nil"
+		}
 		if callee := calleeOf(info, x); callee != nil {
 			if m.constructors[callee] {
 				return "constructor result"
